@@ -28,6 +28,7 @@ REQUIRED = {
     "direct_routines_checked": 40, "bystanders_bitwise_checked": 80,
     "trainee_changed_checks": 30, "no_change_calls_checked": 20,
     "in_loop_segments_checked": 500, "routines_traced": 9,
+    "tiny_gradient_updates_checked": 4,
 }
 TIMEOUT = {"quick": 1500, "thorough": 7000}
 ASSUMPTIONS = ["non-Param variables (action scale / bias) are part of the "
